@@ -747,14 +747,23 @@ def spell_float(rng, x, stats):
             s, k = "+" + s, "+sign"
         elif r < 0.82:
             s, k = (("-00" + s[1:]) if s.startswith("-") else ("00" + s)), "leading zeros"
-        elif r < 0.86 and s.startswith("0."):
+        elif r < 0.84 and s.startswith("0."):
             s, k = s[1:], ".5"
+        elif r < 0.86 and s.startswith("0."):
+            s, k = "+" + s[1:], "+.5"
         elif r < 0.9 and s.endswith(".0"):
             s, k = s[:-1], "5."
         elif r < 0.94 and "e" not in s and len(s.split(".")[0].lstrip("-")) > 1:
             s, k = s[: s.index(".") - 1] + "_" + s[s.index(".") - 1 :], "1_0"
         elif r < 0.97:
-            s, k = s.translate({ord(c): 0x0660 + i for i, c in enumerate("0123456789")}) if "e" not in s and "-" not in s else s, "arabic digits"
+            if "e" not in s and "-" not in s:
+                s, k = s.translate({ord(c): 0x0660 + i for i, c in enumerate("0123456789")}), "arabic digits"
+        elif r < 0.985:
+            s, k = ("%g" % x).replace("e+0", "e").replace("e-0", "e-").replace("e+", "e"), "1e5"
+        else:
+            s, k = ("%G" % x).replace("E+0", "E").replace("E-0", "E-").replace("E+", "E"), "1E-3"
+        if x == 0.0 and math.copysign(1.0, x) < 0 and rng.random() < 0.5:
+            s, k = "-0", "-0"
     else:
         s, k = rng.choice({True: ["nan", "NaN", "+nan"], False: ["inf", "Infinity", "INF", "1e999"] if x > 0 else ["-inf", "-Infinity", "-1e999"]}[math.isnan(x)]), "nan/inf"
     try:
